@@ -33,11 +33,14 @@ def plan(ctx):
         seqs.append(("err-%d" % i, g.heap_seq(rng, "err")))
         seqs.append(("tr-%d" % i, g.heap_seq(rng, "tr")))
         seqs.append(("slow-%d" % i, g.slow_seq(rng)))
+        seqs.append(("resfill-%d" % i, g.res_exact_fill(rng)))
+        seqs.append(("slowbump-%d" % i, g.slow_bump(rng)))
     batches = [("corpus", corpus()), ("gen", seqs)]
     exh = []
     ml = 4 if tier == "quick" else 6
     for eng in ("res", "err", "tr"):
         exh += g.exhaustive_small(eng, maxlen=ml)
+    exh += g.exhaustive_merge(caps=(2, 3), suffix=2) if tier == "quick" else g.exhaustive_merge(caps=(1, 2, 3, 4), suffix=2, slack=(-1, 0, 1))
     batches.append(("exhaustive", exh))
     return batches
 
